@@ -99,6 +99,7 @@ func runC16(p *core.Prog, r *core.Result) {
 		"R16.3 mapping diffs: delete exactly on keys of old missing in new, replace exactly on a non-empty recursive diff of the two values under one key, add exactly on keys of new missing in old",
 		"R16.4 the rebuild-reason table lists exactly the keys under which the unpickler stores environment parts",
 		"R16.7 merging an adjacent delete/add pair into a replace: the two arguments of the element-wise diff are (part of) the deleted run and (part of) the added run in that order, and the surplus that is kept as an edit of its own carries the kind of the run it was cut from (left-over deleted elements stay a delete, left-over added elements stay an add)",
+		"R16.8 elements are reported as kept (common) only where they are equal as values: in the diagonal walk of the edit-graph search every advance of the two cursors is on the edge where starlark.EqualDepth/Equal of a.Index(x) and b.Index(y) reported equality (no representation-level shortcut such as comparing the bytes of a string with the bytes of a bytes value)",
 		"R16.5 the diff is nil exactly on the equal edge; every other successful return is a non-nil node",
 	}
 	r.NotDecided = []string{"that kept+deleted / kept+added elements reconstruct the two sequences (the O(NP) search and snake recording are behavioural)", "merging of delete+add into replace for all length combinations"}
@@ -178,6 +179,9 @@ func runC16(p *core.Prog, r *core.Result) {
 
 	// ---- R16.7
 	checkComposeMerge(p, r)
+
+	// ---- R16.8
+	checkSnakeEquality(p, r, "R16.8")
 
 	// ---- R16.5
 	nilOnEq := 0
@@ -981,6 +985,118 @@ func checkReasonTable(p *core.Prog, r *core.Result) {
 	r.Check(len(missing) == 0, "R16.4", "dawn#reason-table-covers-env-keys", p.Pos(tablePos), fmt.Sprintf("all %d environment keys stored by the unpickler are in the reason table", len(keys)), fmt.Sprintf("environment keys %q are stored by the unpickler but absent from the reason table: a change confined to them is reported with an empty or wrong reason", missing))
 	r.Check(len(extra) == 0, "R16.4", "dawn#reason-table-no-stale-keys", p.Pos(tablePos), "every reason names a key the unpickler stores", fmt.Sprintf("reason table entries %q name no environment key: those reasons can never be reported", extra))
 	r.Floor("R16.4", len(keys), 4, "environment keys stored by the unpickler")
+}
+
+// checkSnakeEquality implements R16.8 on (*differ).snake.
+func checkSnakeEquality(p *core.Prog, r *core.Result, rule string) {
+	snake := need(p, r, rule, "diff", "differ", "snake")
+	if snake == nil {
+		return
+	}
+	// Index(i) on diff.a / diff.b
+	indexOf := func(v ssa.Value) (field string, idx ssa.Value) {
+		c, ok := v.(*ssa.Call)
+		if !ok || !c.Call.IsInvoke() || c.Call.Method.Name() != "Index" || len(c.Call.Args) != 1 {
+			return "", nil
+		}
+		for _, f := range []string{"a", "b"} {
+			if core.LoadOfField(c.Call.Value, pkgDiff, "differ", f) {
+				return f, c.Call.Args[0]
+			}
+		}
+		return "", nil
+	}
+	n := 0
+	var fam []*ssa.Function
+	for fn := range family(p, snake) {
+		fam = append(fam, fn)
+	}
+	sort.Slice(fam, func(i, j int) bool { return fam[i].String() < fam[j].String() })
+	for _, fn := range fam {
+		core.Instrs(fn, func(in ssa.Instruction) {
+			inc, ok := in.(*ssa.BinOp)
+			if !ok || inc.Op != token.ADD {
+				return
+			}
+			if k, okk := core.ConstInt(inc.Y); !okk || k != 1 {
+				return
+			}
+			phi, ok := inc.X.(*ssa.Phi)
+			if !ok {
+				return
+			}
+			loop := false
+			for _, e := range phi.Edges {
+				if e == ssa.Value(inc) {
+					loop = true
+				}
+			}
+			if !loop {
+				return
+			}
+			n++
+			okEq := p.FactsAt(inc).Find(func(cv ssa.Value, v bool) bool {
+				e, isE := cv.(*ssa.Extract)
+				if !isE || e.Index != 0 || !v {
+					return false
+				}
+				c, isC := e.Tuple.(*ssa.Call)
+				if !isC {
+					return false
+				}
+				if core.IsCallTo(c, pkgStar, "EqualDepth") || core.IsCallTo(c, pkgStar, "Equal") {
+					f1, i1 := indexOf(c.Call.Args[0])
+					f2, i2 := indexOf(c.Call.Args[1])
+					if f1 == "" || f2 == "" || f1 == f2 {
+						return false
+					}
+					return i1 == ssa.Value(phi) || i2 == ssa.Value(phi)
+				}
+				// a helper that compares the elements under the cursors it is handed: every verdict it can return as true is the
+				// verdict of starlark equality on a.Index(param) and b.Index(param), and the cursor is one of the arguments
+				h := core.Callee(c)
+				if h == nil || h.Pkg != fn.Pkg || h.Blocks == nil || c.Call.IsInvoke() {
+					return false
+				}
+				isArg := false
+				for _, a := range c.Call.Args {
+					if a == ssa.Value(phi) {
+						isArg = true
+					}
+				}
+				nret := 0
+				for _, ret := range core.ReturnsOf(h) {
+					vals := core.RetVals(ret)
+					if len(vals) == 0 {
+						return false
+					}
+					if b, isConst := core.ConstBool(vals[0]); isConst && !b {
+						continue
+					}
+					nret++
+					he, ok := vals[0].(*ssa.Extract)
+					if !ok || he.Index != 0 {
+						return false
+					}
+					hc, ok := he.Tuple.(*ssa.Call)
+					if !ok || !(core.IsCallTo(hc, pkgStar, "EqualDepth") || core.IsCallTo(hc, pkgStar, "Equal")) {
+						return false
+					}
+					f1, i1 := indexOf(hc.Call.Args[0])
+					f2, i2 := indexOf(hc.Call.Args[1])
+					_, p1 := i1.(*ssa.Parameter)
+					_, p2 := i2.(*ssa.Parameter)
+					if f1 == "" || f2 == "" || f1 == f2 || !p1 || !p2 {
+						return false
+					}
+				}
+				return isArg && nret > 0
+			})
+			construct := fmt.Sprintf("%s#advance-%s", fname(fn), phi.Comment)
+			r.Check(okEq, rule, construct, p.InstrPos(inc), "the cursor advances only where the elements under the two cursors compared equal as values", "a cursor of the diagonal walk advances on a path where starlark equality of a.Index(x) and b.Index(y) was not established: elements that merely look alike (the bytes of a string and of a bytes value) are reported as kept, so the edits no longer reproduce both values and unequal values can get a diff without a changing edit")
+		})
+	}
+	r.Floor(rule, n, 2, "cursor advances in the diagonal walk")
 }
 
 // checkComposeMerge implements R16.7 on (*differ).compose.
